@@ -30,10 +30,54 @@ ASSUMPTIONS = ["oracle hypotheses of Proofs/Svcb.v section Roundtrip (ParseIP in
 HAS_MODEL_OUT = True
 
 
+def _pack(b):
+    ws = []
+    for i in range(0, len(b), 7):
+        w = 1
+        for x in reversed(b[i:i + 7]):
+            w = (w << 8) | int(x)
+        ws.append(str(w))
+    return "(bs [" + ";".join(ws) + "]%uint63)"
+
+
+def cbytes(b):  # noqa: F811  (transport encoding of Run/C18.v: 7 bytes per 63-bit integer)
+    b = list(b)
+    if len(b) < 4096:
+        return _pack(b) if b else "[]"
+    # long inputs are periodic: write them as repetitions of a short pattern
+    parts = []
+    i = 0
+    while i < len(b):
+        best = None
+        for per in (1, 2, 3, 4, 16, 255, 256):
+            if i + 2 * per > len(b):
+                continue
+            pat = b[i:i + per]
+            n = 1
+            while b[i + n * per:i + (n + 1) * per] == pat:
+                n += 1
+            if n * per >= 64 and (best is None or n * per > best[0] * best[1]):
+                best = (n, per)
+        if best:
+            n, per = best
+            parts.append("rp %d %s" % (n, _pack(b[i:i + per])))
+            i += n * per
+        else:
+            j = i + 1
+            # literal stretch up to the next long run of a single byte
+            while j < len(b) and not (j + 64 <= len(b) and len(set(b[j:j + 64])) == 1):
+                j += 1
+                if j - i >= 2048:
+                    break
+            parts.append(_pack(b[i:j]))
+            i = j
+    return "(" + " ++ ".join(parts) + ")"
+
+
 def _sval(v):
     k = v["k"]
     if k == 0:
-        return "VMand %s" % cbytes(v.get("ks") or [])
+        return "VMand %s" % clist([cN(x) for x in v.get("ks") or []])
     if k == 1:
         return "VAlpn %s" % clist([cbytes(x) for x in v.get("ids") or []])
     if k == 2:
@@ -62,7 +106,12 @@ def _pairs(ps):
 
 
 def to_coq(c):
-    kind = "KWire" if c["kind"] == "wire" else "KRt"
+    wire_kind = c["kind"] == "wire"
+    kind = "KWire" if wire_kind else "KRt"
+    if wire_kind:   # fields the kind does not look at are left out of the term
+        c = dict(c, txt=[], wire2=[], print=[], b64e=[])
+    else:
+        c = dict(c, mkv=[], decl=None, rec=None, mk=2)
     rec = "None"
     if c.get("rec"):
         r = c["rec"]
